@@ -453,6 +453,233 @@ fn FromPrimitive__from_@T@(n: @T@) -> /*@{*/(r: /*}@*/Option<Self>/*@{*/)/*}@*/
 }
 """
 
+DIGIT_SD = {'i8': 'u8', 'i16': 'u16', 'i32': 'u32', 'i64': 'u64'}
+
+ISNEG = r"""
+//! raw bn_numtraits_isneg_@T@ @DIGITS@
+// primitive method without a vstd specification (the prelude specifies it for the signed digit type only)
+pub assume_specification[ @T@::is_negative ](a: @T@) -> (r: bool)
+    ensures r == (0 > a as int);
+"""
+
+LEMMAS_S2 = r"""
+//! proof bn_lemma_numtraits_sand_@T@
+// the negative branch of to_int!: clearing bits of an all-ones tail is OR-ing into the complement
+pub proof fn bn_lemma_numtraits_sand_@T@(x: @T@, nd: @U@, s: @U@)
+    requires @TB@ > s as int
+    ensures !((x & !((nd as @T@) << s)) as @U@) == (!(x as @U@)) | (nd << s)
+{
+    assert(!((x & !((nd as @T@) << s)) as @U@) == (!(x as @U@)) | (nd << s)) by (bit_vector) requires s < @TB@@U@;
+}
+//! proof bn_lemma_numtraits_snot_@T@
+pub proof fn bn_lemma_numtraits_snot_@T@(x: @T@)
+    ensures (!(x as @U@)) as int == @U@::MAX as int - (x as @U@) as int, (-1@T@) as @U@ == @U@::MAX
+{
+    let y = x as @U@;
+    assert(!y == @U@::MAX - y) by (bit_vector);
+    assert((-1@T@) as @U@ == @U@::MAX) by (bit_vector);
+}
+"""
+
+NARROW2 = r"""
+//! proof bn_lemma_numtraits_narrow2_@T@
+// digit -> narrower signed primitive -> digit (sign-extending) round trip of the signed to_int!
+pub proof fn bn_lemma_numtraits_narrow2_@T@(x: $D)
+    requires $DB > @TB@
+    ensures (((x as @T@) as $D) == x) ==> (x as @T@) as int == bn_sd(x),
+        !(((x as @T@) as $D) == x) ==> (bn_sd(x) > @T@::MAX as int || (@T@::MIN as int) > bn_sd(x))
+{
+    bn_lemma_cast_i64(x);
+    assert(${DB}u32 <= @TB@u32 || ((((x as @T@) as $D) == x) ==> ((x as @T@) as i128 == (x as $SD) as i128))) by (bit_vector);
+    assert(${DB}u32 <= @TB@u32 || (!(((x as @T@) as $D) == x) ==> ((x as $SD) as i128 > @HALFM1@i128 || -@HALF@i128 > (x as $SD) as i128))) by (bit_vector);
+}
+"""
+
+PAD = r"""
+//! proof bn_lemma_numtraits_pad_all
+// all digits from k up equal the sign padding: the value is the low part (plus the all-ones block for negatives)
+pub proof fn bn_lemma_numtraits_pad_all(s: Seq<$D>, k: nat, n: nat, neg: bool)
+    requires k <= n, forall|t: int| k <= t < n ==> s[t] == (if neg { $DMAX$D } else { 0$D })
+    ensures bn_val(s, n) == bn_val(s, k) + (if neg { bn_bp(n) - bn_bp(k) } else { 0 })
+{
+    if neg { bn_lemma_shift_max_above(s, k, n); } else { bn_lemma_zero_above(s, k, n); }
+}
+//! proof bn_lemma_numtraits_pad_some
+// a digit at j that is not the sign padding pushes the value at least bp(j) away from the padded extreme
+pub proof fn bn_lemma_numtraits_pad_some(s: Seq<$D>, j: int, n: nat, neg: bool)
+    requires 0 <= j < n, s[j] != (if neg { $DMAX$D } else { 0$D })
+    ensures !neg ==> bn_val(s, n) >= bn_bp(j as nat), neg ==> bn_bp(n) - 1 - bn_val(s, n) >= bn_bp(j as nat)
+{
+    if neg {
+        let e = Seq::new(n, |k: int| !s[k]);
+        bn_lemma_bits_compl_val(s, e, n);
+        bn_lemma_bits_not_val(s[j]);
+        bn_lemma_val_pos(e, n, j);
+    } else {
+        bn_lemma_val_pos(s, n, j);
+    }
+}
+"""
+
+BI_TO_S = r"""
+//! fn impl(ToPrimitivefor$BInt<N>)::to_@T@ [ext_trait extcall=self.is_negative:Signed__is_negative]
+fn ToPrimitive__to_@T@(&self) -> /*@{*/(r: /*}@*/Option<@T@>/*@{*/)/*}@*/
+    /*@{*/ requires bn_wf(N)
+    ensures (r is Some) == (@T@::MIN as int <= self@ && self@ <= @T@::MAX as int), r matches Some(v) ==> v as int == self@ /*}@*/
+{
+    let neg = self.Signed__is_negative();
+    let (mut out, padding) = if neg {
+        (-1, $D::MAX)
+    } else {
+        (0, $D::MIN)
+    };
+    let mut i = 0;
+    /*@{*/ let ghost ds = self.bits.digits@;
+    let ghost vv = bn_val(ds, N as nat);
+    let ghost mm = Self::bn_m();
+    proof {
+        bn_lemma_bits_bp_pow2(1); bn_lemma_bits_bp_pow2(0); bn_lemma_numtraits_pow2_@TB@(); bn_lemma_bits_pow2_db(); lemma2_to64();
+        reveal_with_fuel(bn_val, 2);
+        lemma_pow0(bn_base());
+        assert(bn_bp(0) == 1);
+        assert(bn_val(ds, 0) == 0);
+        assert(bn_val(ds, 1) == bn_val(ds, 0) + ds[0] as int * bn_bp(0));
+        assert(bn_val(ds, 1) == ds[0] as int);
+        bn_lemma_numtraits_sign_@T@(0);
+        bn_lemma_numtraits_sign_@T@(-1@T@);
+        bn_lemma_numtraits_snot_@T@(-1@T@);
+        bn_lemma_sval_twos(ds, N as nat);
+        bn_lemma_val_upto_bound(ds, N as nat);
+    } /*}@*/
+    if $D::BITS > <@T@>::BITS {
+        let small = self.bits.digits[i] as @T@;
+        let trunc = small as $D;
+        /*@{*/ proof {
+            @NARROW2CALL@
+            if self.bits.digits[0] != trunc && @T@::MIN as int <= self@ && self@ <= @T@::MAX as int {
+                // a representable value has only padding above digit 0, so it is the signed reading of digit 0
+                assert forall|j: int| 1 <= j < N implies ds[j] == padding by {
+                    if ds[j] != padding {
+                        bn_lemma_numtraits_pad_some(ds, j, N as nat, neg);
+                        lemma_pow_increases(bn_base() as nat, 1, j as nat);
+                    }
+                }
+                bn_lemma_numtraits_pad_all(ds, 1, N as nat, neg);
+                assert(false);
+            }
+        } /*}@*/
+        if self.bits.digits[i] != trunc {
+            return None;
+        }
+        out = small;
+        i = 1;
+    } else {
+        if neg {
+            loop
+                /*@{*/ invariant i <= N, i * $DB <= @TB@, $DB <= @TB@, bn_wf(N), ds == self.bits.digits@,
+                    (!(out as @U@)) as int == pow2((i * $DB) as nat) - 1 - bn_val(ds, i as nat),
+                    pow2((i * $DB) as nat) > (!(out as @U@)) as int
+                ensures i == N || i * $DB == @TB@
+                decreases N - i /*}@*/
+            {
+                let shift = i << digit::$D::BIT_SHIFT;
+                /*@{*/ proof {
+                    assert(i * $DB <= 65536) by (nonlinear_arith) requires i <= N, N * $DB <= 65536;
+                    vstd::bits::lemma_usize_shl_is_mul(i, ${LOGDB}usize);
+                } /*}@*/
+                if i >= N || shift >= <@T@>::BITS as usize {
+                    break;
+                }
+                /*@{*/ let ghost out0: @T@ = out; /*}@*/
+                out &= !(((!self.bits.digits[i]) as @T@) << shift);
+                /*@{*/ proof {
+                    let nd = (!ds[i as int]) as @U@;
+                    assert(((!ds[i as int]) as @T@) == (nd as @T@));
+                    bn_lemma_bits_not_val(ds[i as int]);
+                    bn_lemma_numtraits_sand_@T@(out0, nd, shift as @U@);
+                    bn_lemma_bits_pow2_db();
+                    bn_lemma_numtraits_or_@U@(!(out0 as @U@), nd, shift as @U@, $DB);
+                    bn_lemma_bits_bp_pow2(i as nat);
+                    assert((i * $DB) as nat + $DB == ((i + 1) * $DB) as nat) by (nonlinear_arith) requires i >= 0;
+                    assert($DB * i == i * $DB) by (nonlinear_arith);
+                    lemma_pow2_adds((i * $DB) as nat, $DB);
+                    let p = pow2((i * $DB) as nat) as int;
+                    let d = ds[i as int] as int;
+                    assert((pow2($DB) - 1 - d) * p == pow2($DB) * p - p - d * p) by (nonlinear_arith);
+                    assert(p * pow2($DB) == pow2($DB) * p) by (nonlinear_arith);
+                } /*}@*/
+                i += 1;
+            }
+        } else {
+            loop
+                /*@{*/ invariant i <= N, i * $DB <= @TB@, $DB <= @TB@, bn_wf(N), ds == self.bits.digits@,
+                    (out as @U@) as int == bn_val(ds, i as nat), pow2((i * $DB) as nat) > (out as @U@) as int
+                ensures i == N || i * $DB == @TB@
+                decreases N - i /*}@*/
+            {
+                let shift = i << digit::$D::BIT_SHIFT;
+                /*@{*/ proof {
+                    assert(i * $DB <= 65536) by (nonlinear_arith) requires i <= N, N * $DB <= 65536;
+                    vstd::bits::lemma_usize_shl_is_mul(i, ${LOGDB}usize);
+                } /*}@*/
+                if i >= N || shift >= <@T@>::BITS as usize {
+                    break;
+                }
+                /*@{*/ let ghost out0: @T@ = out; /*}@*/
+                out |= (self.bits.digits[i] as @T@) << shift;
+                /*@{*/ proof {
+                    let du = ds[i as int] as @U@;
+                    assert((ds[i as int] as @T@) == (du as @T@));
+                    bn_lemma_numtraits_sor_@T@(out0, du, shift as @U@);
+                    bn_lemma_bits_pow2_db();
+                    bn_lemma_numtraits_or_@U@(out0 as @U@, du, shift as @U@, $DB);
+                    bn_lemma_bits_bp_pow2(i as nat);
+                    assert((i * $DB) as nat + $DB == ((i + 1) * $DB) as nat) by (nonlinear_arith) requires i >= 0;
+                    assert($DB * i == i * $DB) by (nonlinear_arith);
+                } /*}@*/
+                i += 1;
+            }
+        }
+    }
+    /*@{*/ let ghost i0 = i;
+    let ghost ww = bn_val(ds, i0 as nat);
+    let ghost pw = bn_bp(i0 as nat);
+    proof {
+        bn_lemma_numtraits_sign_@T@(out);
+        bn_lemma_numtraits_snot_@T@(out);
+        bn_lemma_bits_bp_pow2(i0 as nat); assert($DB * i0 == i0 * $DB) by (nonlinear_arith);
+        bn_lemma_val_upto_bound(ds, i0 as nat);
+        bn_lemma_cast_i64(ds[0]);
+        if i0 < N { lemma_pow_increases(bn_base() as nat, i0 as nat, N as nat); }
+        if $DB <= @TB@ && i0 * $DB < @TB@ { lemma_pow2_strictly_increases((i0 * $DB) as nat, @TB@); }
+        // the signed reading of the low i0 digits
+        assert(out as int == ww - (if 2 * ww >= pw { pw } else { 0 }));
+        assert(i0 == N || pw > @U@::MAX as int);
+    } /*}@*/
+    while i < N
+        /*@{*/ invariant i0 <= i <= N, 1 <= N, ds == self.bits.digits@, padding == (if neg { $DMAX$D } else { 0$D }),
+            forall|k: int| i0 <= k < i ==> ds[k] == padding,
+            i0 < N ==> pw > @U@::MAX as int, pw == bn_bp(i0 as nat), vv == bn_val(ds, N as nat), mm == bn_bp(N as nat),
+            self@ == vv - (if neg { mm } else { 0 }), mm > vv >= 0
+        decreases N - i /*}@*/
+    {
+        if self.bits.digits[i] != padding {
+            /*@{*/ proof {
+                bn_lemma_numtraits_pad_some(ds, i as int, N as nat, neg);
+                if i > i0 { lemma_pow_increases(bn_base() as nat, i0 as nat, i as nat); }
+            } /*}@*/
+            return None;
+        }
+        i += 1;
+    }
+    /*@{*/ proof { bn_lemma_numtraits_pad_all(ds, i0 as nat, N as nat, neg); } /*}@*/
+    if out.is_negative() != neg {
+        return None;
+    }
+    Some(out)
+}
+"""
+
 def inst(t, T, TB):
     return t.replace('@TB@', str(TB)).replace('@T@', T).replace('@HALFM1@', HALFM1[TB])
 
@@ -512,3 +739,16 @@ pub proof fn bn_lemma_numtraits_zero_digits(d: Seq<$D>, n: nat)
 for T, TB in UT:
     if want('from_' + T):
         w(inst(BI_FROM_U, T, TB).lstrip('\n'))
+ALLD = ['u64', 'u32', 'u16', 'u8']
+for T, U, TB in ST:
+    ds = [d for d in ALLD if d != DIGIT_SD.get(T)]
+    if T != 'i8':   # i8::is_negative is already specified by unit slices (same contract)
+        w(ISNEG.replace('@T@', T).replace('@DIGITS@', '[digits=' + ','.join(ds) + ']').lstrip('\n'))
+    w(inst(LEMMAS_S2, T, TB).replace('@U@', U).lstrip('\n'))
+    if T != 'i128':
+        w(inst(NARROW2, T, TB).replace('@HALF@', HALF[TB]).lstrip('\n'))
+w(PAD.lstrip('\n'))
+for T, U, TB in ST:
+    if want('bi_to_' + T):
+        call = 'bn_lemma_numtraits_narrow2_%s(self.bits.digits[0]);' % T if T != 'i128' else ''
+        w(inst(BI_TO_S, T, TB).replace('@U@', U).replace('@NARROW2CALL@', call).lstrip('\n'))
